@@ -855,3 +855,10 @@ def _heappop(eng, a, kw, st, fr, k, node):
     for f in heap_facts(eng, st.heap[h.base]):
         st = st.assume(f)
     return k(res, st)
+
+
+@method("str", "split")
+def _str_split(eng, recv, a, kw, st, fr, k, node):
+    if a:
+        raise Unsupported("str.split with a separator")
+    return k(recv.split(), st)
